@@ -4,7 +4,7 @@
 use std::{
     cell::RefCell,
     mem::MaybeUninit,
-    os::fd::{AsFd, AsRawFd, BorrowedFd, OwnedFd, RawFd},
+    os::fd::{AsFd, BorrowedFd, OwnedFd},
     ptr::NonNull,
     sync::{Arc, Mutex},
 };
@@ -208,9 +208,6 @@ impl TrackedFd {
         }))
     }
 
-    pub fn raw(&self) -> RawFd {
-        self.0.fd.as_ref().unwrap().as_raw_fd()
-    }
 }
 
 impl AsFd for TrackedFd {
